@@ -143,7 +143,9 @@ func ParseX25519Identity(s string) (*X25519Identity, error) {
 		return nil, fmt.Errorf("malformed secret key: %v", err)
 	}
 	if t != "AGE-SECRET-KEY-" {
-		return nil, fmt.Errorf("malformed secret key: unknown type %q", t)
+		// Don't print t: the separator is the last "1" in the string, so for a
+		// corrupted key it can include most of the secret.
+		return nil, errors.New("malformed secret key: unknown type")
 	}
 	r, err := newX25519IdentityFromScalar(k)
 	if err != nil {
